@@ -1,6 +1,7 @@
 package main
 
 import (
+	"sort"
 	"golang.org/x/tools/go/cfg"
 	"strings"
 	"fmt"
@@ -1699,6 +1700,170 @@ func init() {
 						obs = append(obs, mkOb(c, rid, u, construct, body, Proved, "after the user code ran, nothing reads the argument's length or cells again", true))
 					} else {
 						obs = append(obs, mkOb(c, rid, u, construct, reread, Violated, "`"+types.ExprString(reread.(ast.Expr))+"` reads the argument again after user code (a predicate / key function) has run: that code can shrink or grow the sequence in place, so this size no longer matches the indexes computed against the cells taken before — the reslice that follows panics in the Go runtime (internal-panic)", true))
+					}
+				}
+			}
+			return obs
+		}})
+}
+
+// MEMO.key-covers-inputs — C16 (Format writes only what the reader accepts), and any other
+// property a cached decision feeds: a memo in front of a decision function must be keyed by
+// everything the decision reads.  `if ok, seen := memo[x.Str]; seen { return ok }; ok := decide(x);
+// memo[x.Str] = ok` answers for a later x with the same Str and a different quoted flag what it
+// answered for the first.
+func init() {
+	register(&Rule{ID: "MEMO.key-covers-inputs", Floor: 0,
+		Doc: "wherever a function keeps the result of a decision function of the module in a map and answers from that map on a later call (`v, seen := memo[K]; if seen { return v }` … `memo[K] = decide(x)`), every field and every argument-less method of the parameter x that decide reads is part of the key K or is pinned by an early-return guard in front of the lookup (`if x.Type != LSymbol { return false }`): two values that differ in something the decision looks at never share a memo entry (expected count small; seeded C16-r8m1 is the positive example)",
+		Run: func(c *Ctx) []Obligation {
+			const rid = "MEMO.key-covers-inputs"
+			var obs []Obligation
+			for _, u := range c.Funcs(nil) {
+				if u.Decl == nil || u.Decl.Body == nil {
+					continue
+				}
+				info := u.Pkg.TypesInfo
+				params := map[types.Object]bool{}
+				for _, p := range paramObjs(u) {
+					params[p] = true
+				}
+				// memo lookups: v, seen := M[K] followed by use; memo stores: M[K] = R
+				type look struct {
+					m   string
+					key ast.Expr
+					at  ast.Node
+				}
+				var looks []look
+				ast.Inspect(u.Decl.Body, func(n ast.Node) bool {
+					as, ok := n.(*ast.AssignStmt)
+					if !ok || len(as.Lhs) != 2 || len(as.Rhs) != 1 {
+						return true
+					}
+					ix, ok := ast.Unparen(as.Rhs[0]).(*ast.IndexExpr)
+					if !ok {
+						return true
+					}
+					if tv, ok := info.Types[ix.X]; !ok {
+						return true
+					} else if _, isMap := tv.Type.Underlying().(*types.Map); !isMap {
+						return true
+					}
+					looks = append(looks, look{types.ExprString(ix.X), ix.Index, as})
+					return true
+				})
+				if len(looks) == 0 {
+					continue
+				}
+				ord := &ordinal{}
+				for _, lk := range looks {
+					// the store with the same map and the same key, whose value comes from decide(x)
+					var decide *types.Func
+					var xObj types.Object
+					ast.Inspect(u.Decl.Body, func(n ast.Node) bool {
+						as, ok := n.(*ast.AssignStmt)
+						if !ok || len(as.Lhs) != 1 || len(as.Rhs) != 1 {
+							return true
+						}
+						ix, ok := ast.Unparen(as.Lhs[0]).(*ast.IndexExpr)
+						if !ok || types.ExprString(ix.X) != lk.m || types.ExprString(ix.Index) != types.ExprString(lk.key) {
+							return true
+						}
+						val := ast.Unparen(as.Rhs[0])
+						if d := soleDef(info, u.Decl.Body, val); d != nil {
+							val = ast.Unparen(d)
+						}
+						ce, ok := val.(*ast.CallExpr)
+						if !ok {
+							return true
+						}
+						f := originOf(Callee(info, ce))
+						if f == nil || c.declOf[f] == nil || f == u.Obj {
+							return true
+						}
+						for _, a := range ce.Args {
+							if o := identObj(info, a); o != nil && params[o] {
+								decide, xObj = f, o
+							}
+						}
+						return true
+					})
+					if decide == nil || xObj == nil {
+						continue
+					}
+					// which parameter of decide receives x
+					dd := c.declOf[decide]
+					dinfo := c.pkgOf[dd].TypesInfo
+					var dparam types.Object
+					for _, ce := range callsIn(u.Decl.Body, true) {
+						if originOf(Callee(info, ce)) != decide {
+							continue
+						}
+						dps := paramObjs(FuncUnit{decide, dd, c.pkgOf[dd]})
+						for i, a := range ce.Args {
+							if identObj(info, a) == xObj && i < len(dps) {
+								dparam = dps[i]
+							}
+						}
+					}
+					if dparam == nil || dd.Body == nil {
+						continue
+					}
+					// what decide reads of its parameter
+					reads := map[string]bool{}
+					ast.Inspect(dd.Body, func(n ast.Node) bool {
+						switch y := n.(type) {
+						case *ast.CallExpr:
+							if se, ok := ast.Unparen(y.Fun).(*ast.SelectorExpr); ok && identObj(dinfo, se.X) == dparam && len(y.Args) == 0 {
+								reads[se.Sel.Name+"()"] = true
+								return false
+							}
+						case *ast.SelectorExpr:
+							if identObj(dinfo, y.X) == dparam {
+								reads[y.Sel.Name] = true
+							}
+						}
+						return true
+					})
+					// what the key and the guards in front of the lookup cover
+					covered := map[string]bool{}
+					note := func(e ast.Expr) {
+						ast.Inspect(e, func(n ast.Node) bool {
+							switch y := n.(type) {
+							case *ast.CallExpr:
+								if se, ok := ast.Unparen(y.Fun).(*ast.SelectorExpr); ok && identObj(info, se.X) == xObj && len(y.Args) == 0 {
+									covered[se.Sel.Name+"()"] = true
+								}
+							case *ast.SelectorExpr:
+								if identObj(info, y.X) == xObj {
+									covered[y.Sel.Name] = true
+								}
+							}
+							return true
+						})
+					}
+					note(lk.key)
+					for _, st := range u.Decl.Body.List {
+						if st.End() > lk.at.Pos() {
+							break
+						}
+						if is, ok := st.(*ast.IfStmt); ok && is.Else == nil && len(is.Body.List) > 0 {
+							if _, isRet := is.Body.List[len(is.Body.List)-1].(*ast.ReturnStmt); isRet {
+								note(is.Cond)
+							}
+						}
+					}
+					var missing []string
+					for r := range reads {
+						if !covered[r] {
+							missing = append(missing, r)
+						}
+					}
+					sort.Strings(missing)
+					construct := ord.next("memo " + exprShape(info, ast.Unparen(lk.at.(*ast.AssignStmt).Rhs[0])) + " of " + decide.Name())
+					if len(missing) == 0 {
+						obs = append(obs, mkOb(c, rid, u, construct, lk.at, Proved, "everything "+decide.Name()+" reads of its argument is in the key or pinned by a guard", true))
+					} else {
+						obs = append(obs, mkOb(c, rid, u, construct, lk.at, Violated, "the memo is keyed by `"+types.ExprString(lk.key)+"` but "+decide.Name()+" also reads "+strings.Join(missing, ", ")+" of its argument: a later value with the same key and a different "+missing[0]+" is answered from the entry made for the first (e.g. `(lisp:function 'car)` re-sugared to `#''car` after `#'car` was printed)", true))
 					}
 				}
 			}
